@@ -281,15 +281,26 @@ def build_vr(tree):
 def build_uid(tree):
     fn = find_func(tree, 'UID.from_uuid')
     root = None
+    render_text = ''
     for n in ast.walk(fn):
         if isinstance(n, ast.JoinedStr):
             vals = n.values
-            if len(vals) == 2 and _str_const(vals[0]) and isinstance(vals[1], ast.FormattedValue) \
-                    and ast.unparse(vals[1].value) == 'UUID(uuid).int' and vals[1].conversion == -1 \
-                    and vals[1].format_spec is None:
-                root = vals[0].value
-            else:
+            # the expression as it stands: constant parts and the UUID's integer in plain decimal, in source order
+            parts, ints = [], 0
+            for v in vals:
+                if _str_const(v):
+                    parts.append('"' + v.value.replace('\\', '\\\\').replace('"', '\\"') + '".toList')
+                elif isinstance(v, ast.FormattedValue) and ast.unparse(v.value) == 'UUID(uuid).int' and v.conversion == -1 \
+                        and v.format_spec is None:
+                    parts.append('Nat.toDigits 10 n')
+                    ints += 1
+                else:
+                    raise Unsupported(f'UID.from_uuid: f-string part outside the fragment: {ast.unparse(n)}')
+            if ints != 1 or not vals or not _str_const(vals[0]):
                 raise Unsupported(f'UID.from_uuid: f-string shape changed: {ast.unparse(n)}')
+            root = vals[0].value
+            render_text = ('/-- the f-string of `UID.from_uuid` as it stands in the source, part by part (`n` = `UUID(uuid).int`) -/\n'
+                           'def uuidRender (n : Nat) : List Char := ' + ' ++ '.join(parts) + '\n\n')
     if root is None:
         raise Unsupported('UID.from_uuid: f-string not found')
     new = find_func(tree, 'UID.__new__')
@@ -307,7 +318,7 @@ def build_uid(tree):
     if prefix is None or not gen_ok:
         raise Unsupported('UID.__new__: prefix literal / generate_uid(prefix=prefix) not found')
     q = lambda s: '"' + s.replace('\\', '\\\\').replace('"', '\\"') + '"'  # noqa: E731
-    text = ('/-- root of `UID.from_uuid`: the literal part of its f-string `f\'<root>{UUID(uuid).int}\'` -/\n'
+    text = (render_text + '/-- root of `UID.from_uuid`: the literal part of its f-string `f\'<root>{UUID(uuid).int}\'` -/\n'
             f'def uuidRoot : String := {q(root)}\n\n'
             '/-- prefix literal handed to `pydicom.uid.generate_uid(prefix=prefix)` by `UID.__new__` -/\n'
             f'def defaultPrefix : String := {q(prefix)}')
@@ -340,7 +351,7 @@ INLINE_DEPTH = 4          # calls of own methods / private helpers are inlined u
 CTOR_MAX_CONDS = 6        # constructors: beyond 2^5 paths the arms of branches are merged instead of enumerated
 # converters that cannot re-class their argument and return a new container holding its items (validated by tie C:
 # the correspondence compares 'same object / new object' of every converter with what its program predicts)
-REBUILDERS = {'ContentSequence.from_sequence'}
+REBUILDERS = {'ContentSequence.from_sequence', 'MeasurementReport.from_sequence'}
 
 FRESH = ('fresh',)
 
@@ -858,6 +869,7 @@ class _Alias:
                 out.append(('link', b, self.label(target.attr), e))      # also for new values: `x.f` is then that object
             elif not _is_fresh(e):
                 out.append(('link', b, ITEM, e))
+                out.append(('link', b, ELEM, e))       # `ds[tag] = elem` stores the element object itself, like `add`
         elif isinstance(target, ast.Starred):
             self.assign_to(target.value, e, out)
         else:
@@ -1434,11 +1446,18 @@ TARGETS['T20sites'] = {'file': 'base.py', 'build': build_sites}
 
 
 # ----------------------------------------------------------------------------------------------- constructors (T20ctor_*)
+# internal machinery of image.py that is not a constructor / conversion of a DICOM object (pixel-transform planner, SQL table
+# description, file entry point taking a path or file handle); mirrored by `excludedConstructors` in Model/AliasTables.lean
+CTOR_EXCLUDE = {'_CombinedPixelTransform.__init__', '_SQLTableDefinition.__init__', '_Image.from_file'}
+
+
 def _constructors(tree):
     out = []
     for node in tree.body:
         if isinstance(node, ast.ClassDef):
             for f in node.body:
+                if f'{node.name}.{getattr(f, "name", "")}' in CTOR_EXCLUDE:
+                    continue
                 if isinstance(f, ast.FunctionDef) and (f.name == '__init__' or (
                         f.name.startswith('from_') and f.name not in ('from_dataset', 'from_sequence'))):
                     out.append((f'{node.name}.{f.name}', f))     # constructors proper and the alternative constructors
@@ -1490,7 +1509,8 @@ CTOR_FILES = {'base': 'base.py', 'content': 'content.py', 'seg_content': 'seg/co
               'sr_content': 'sr/content.py', 'sr_sop': 'sr/sop.py', 'sr_value_types': 'sr/value_types.py',
               'sr_templates': 'sr/templates.py', 'ko_content': 'ko/content.py', 'ko_sop': 'ko/sop.py',
               'ann_content': 'ann/content.py', 'ann_sop': 'ann/sop.py', 'pr_content': 'pr/content.py', 'pr_sop': 'pr/sop.py',
-              'legacy_sop': 'legacy/sop.py', 'volume': 'volume.py'}
+              'legacy_sop': 'legacy/sop.py', 'volume': 'volume.py', 'coding_schemes': 'coding_schemes.py', 'color': 'color.py',
+              'image': 'image.py', 'io': 'io.py', 'spatial': 'spatial.py', 'sr_utils': 'sr/utils.py', 'uid': 'uid.py'}
 for _tag, _file in CTOR_FILES.items():
     TARGETS[f'T20ctor_{_tag}'] = {'file': _file, 'build': make_ctor_target(_tag), 'imports': ['HdVerif.Model.Aliasing']}
 
@@ -1590,3 +1610,92 @@ def build_ds_sites(_tree):
 
 
 TARGETS['T20ds'] = {'file': 'base.py', 'build': build_ds_sites}
+
+
+# ----------------------------------------------------------------------------------------------- package coverage (T20pkg)
+def build_pkg(_tree):
+    """every converter and every constructor (incl. alternative constructors) defined by a class anywhere in the package, found by
+    scanning all modules - independent of the file lists the alias tables are generated from"""
+    root = os.path.join(os.environ.get('HD_REPO', '/repo'), 'src', 'highdicom')
+    conv, ctor = [], []
+    for dp, _, fs in sorted(os.walk(root)):
+        for f in sorted(fs):
+            if not f.endswith('.py'):
+                continue
+            tree = ast.parse(open(os.path.join(dp, f)).read())
+            for node in tree.body:
+                if isinstance(node, ast.ClassDef):
+                    for m in node.body:
+                        if isinstance(m, ast.FunctionDef):
+                            if m.name in ('from_dataset', 'from_sequence', 'extract_from_dataset'):
+                                conv.append(f'{node.name}.{m.name}')
+                            elif m.name == '__init__' or m.name.startswith('from_'):
+                                ctor.append(f'{node.name}.{m.name}')
+    if not conv or not ctor:
+        raise Unsupported('package scan found no converter / constructor')
+    q = lambda xs: '[' + ',\n   '.join(f'"{x}"' for x in xs) + ']'  # noqa: E731
+    text = ('/-- every `from_dataset` / `from_sequence` / `extract_from_dataset` a class of the package defines (scan of all modules) -/\n'
+            f'def pkgConverters : List String :=\n  {q(conv)}\n\n'
+            '/-- every `__init__` and alternative constructor (`from_*`) a class of the package defines (scan of all modules) -/\n'
+            f'def pkgConstructors : List String :=\n  {q(ctor)}')
+    return text, hashlib.sha256(repr((conv, ctor)).encode()).hexdigest()
+
+
+TARGETS['T20pkg'] = {'file': 'base.py', 'build': build_pkg}
+
+
+# ----------------------------------------------------------------------------------------------- converter call rules (T20calls)
+def build_calls(_tree):
+    """how converters are called inside the package (callee as written, the rule the alias extractor applies to the call), and the
+    default of every converter's `copy` parameter - the extractor's call rules are only right if the callees behave like that"""
+    root = os.path.join(os.environ.get('HD_REPO', '/repo'), 'src', 'highdicom')
+    calls, defaults = set(), []
+    for dp, _, fs in sorted(os.walk(root)):
+        for f in sorted(fs):
+            if not f.endswith('.py'):
+                continue
+            tree = ast.parse(open(os.path.join(dp, f)).read())
+            for node in tree.body:
+                if isinstance(node, ast.ClassDef):
+                    for m in node.body:
+                        if isinstance(m, ast.FunctionDef) and m.name in ('from_dataset', 'from_sequence'):
+                            args = m.args.args + m.args.kwonlyargs
+                            dflt = [None] * (len(m.args.args) - len(m.args.defaults)) + list(m.args.defaults) + list(m.args.kw_defaults)
+                            for a, d in zip(args, dflt):
+                                if a.arg == 'copy':
+                                    ok = isinstance(d, ast.Constant) and d.value is True
+                                    defaults.append((f'{node.name}.{m.name}', ok))
+            for n in ast.walk(tree):
+                if isinstance(n, ast.Call) and _Alias.is_converter(n) and n.args:
+                    fname = ast.unparse(n.func)
+                    ck = [k.value for k in n.keywords if k.arg == 'copy']
+                    if fname in REBUILDERS:
+                        rule = 'rebuild'
+                    elif _Alias.is_converter(n) == 'private':
+                        rule = 'private'
+                    elif not ck:
+                        rule = 'default'
+                    elif isinstance(ck[0], ast.Constant) and ck[0].value is True:
+                        rule = 'copy'
+                    elif isinstance(ck[0], ast.Constant) and ck[0].value is False:
+                        rule = 'inplace'
+                    elif isinstance(ck[0], ast.Name) and ck[0].id == 'copy':
+                        rule = 'flag'
+                    else:
+                        raise Unsupported(f'converter call with copy={ast.unparse(ck[0])}')
+                    calls.add((fname, rule))
+    if not calls or not defaults:
+        raise Unsupported('no converter call / copy parameter found')
+    text = ('/-- converter calls inside the package: (callee as written, rule of the alias extractor: `default` = no `copy` argument =>\n'
+            'a new object, the argument untouched; `copy` = `copy=True`, same; `inplace` = `copy=False` => converted in place, the\n'
+            'argument itself returned; `flag` = `copy=copy`, either; `rebuild` = a new container around the items, converted in place unless\n'
+            'copied; `private` = an in-place helper) -/\n'
+            'def converterCalls : List (String × String) := [\n  '
+            + ',\n  '.join(f'("{c}", "{r}")' for c, r in sorted(calls)) + '\n]\n\n'
+            '/-- every converter with a `copy` parameter: is its default `True` -/\n'
+            'def converterCopyDefaults : List (String × Bool) := [\n  '
+            + ',\n  '.join(f'("{c}", {"true" if d else "false"})' for c, d in defaults) + '\n]')
+    return text, hashlib.sha256(repr((sorted(calls), defaults)).encode()).hexdigest()
+
+
+TARGETS['T20calls'] = {'file': 'base.py', 'build': build_calls}
